@@ -10,6 +10,8 @@
       iterations over ALL levels together;
     - SRCapabilities.unpack / SRLB.unpack AS FOUND do not terminate (refuted, with the exact
       input class); the REPAIRED loops (build/proposed/c11-srcap-srlb.diff) terminate;
+    - LabeledUnicast.parse / MPLSVPN.parse AS FOUND do quadratic work (refuted); REPAIRED
+      (build/proposed/c11-label-stack-bound.diff) all levels together are linear;
     - the Update.parse funnel returns a result object whenever the two length fields are in range.
     Straight-line decoders (no loop, no recursion) are total by construction; the inventory
     theorem is what guarantees none of them hides a loop. *)
@@ -105,6 +107,24 @@ Theorem C11_nested_tlv_work : forall h off w (inner : bytes -> nat) raises,
            (fun d => inner (slice h (h + N.to_nat (tlv_len off w d)) d)) fuel d <= length d)%nat.
 Proof. exact nested_tlv_le. Qed.
 Print Assumptions C11_nested_tlv_work.
+
+(** labelled-unicast / MPLS-VPN NLRI: the label-stack parser called in every iteration.
+    AS FOUND it scans the whole rest of the field each time: quadratic (refuted with 300 zero
+    octets costing more than 50 iterations per octet); REPAIRED
+    (build/proposed/c11-label-stack-bound.diff) it is bounded by the NLRI's own octets: linear *)
+Theorem C11_labeled_nlri_refuted :
+  exists d, length d = 300%nat /\ (50 * length d < lu_total_orig false d)%nat.
+Proof. exact lu_quadratic_refuted. Qed.
+Print Assumptions C11_labeled_nlri_refuted.
+
+Theorem C11_labeled_nlri_linear : forall addpath raises d,
+  (lu_total addpath raises d <= length d)%nat.
+Proof. exact lu_total_le. Qed.
+Print Assumptions C11_labeled_nlri_linear.
+
+Example C11_labeled_example :
+  lu_total false never [24; 0;1;1;  32; 0;2;1; 10] = 4%nat /\ lu_total false never (repeat 0 300) = 300%nat.
+Proof. vm_compute. auto. Qed.
 
 (** the recursive SRv6 sub-TLV decoders: recursion depth [S (length d)] suffices, total work of
     all levels at most [length d], whatever fixed part each level skips *)
